@@ -634,22 +634,14 @@ func fmtReadBack(c fmtCase, out string) string {
 	if sub.Exp == "" {
 		// candidates: half-even rounding of the float product and of the exact decimal product
 		cands := []float64{abs * mult}
-		if d, err := strconv.ParseFloat(strconv.FormatFloat(abs, 'g', -1, 64)+"e"+strconv.Itoa(int(math.Log10(mult))), 64); err == nil {
+		if d, err := strconv.ParseFloat(strconv.FormatFloat(abs, 'f', -1, 64)+"e"+strconv.Itoa(int(math.Log10(mult))), 64); err == nil {
 			cands = append(cands, d)
 		}
 		for _, v := range cands {
-			want := ref.RoundHalfEven(v, maxFrac)
-			wr := new(big.Rat).SetFloat64(want)
-			// compare on the decimal grid of the picture
-			ws := strconv.FormatFloat(want, 'f', maxFrac, 64)
-			wrat, _ := new(big.Rat).SetString(ws)
-			if wrat != nil && wrat.Cmp(read) == 0 {
-				return ""
-			}
-			_ = wr
-			// also the half-even rounding of the exact binary value
-			exact := new(big.Rat).SetFloat64(v)
-			if exact != nil && ratRoundHalfEven(exact, maxFrac).Cmp(read) == 0 {
+			// the scaled value as JSONata prints it (its shortest decimal form),
+			// rounded half-to-even on the decimal grid of the picture, exactly
+			dec, ok := new(big.Rat).SetString(strconv.FormatFloat(v, 'f', -1, 64))
+			if ok && ratRoundHalfEven(dec, maxFrac).Cmp(read) == 0 {
 				return ""
 			}
 		}
